@@ -233,14 +233,7 @@ def run_seq(ctx, case):
         if a[2] != f[2] and ("exc" in (f[2][:1] + a[2][:1])):
             ctx.cls("not-judged:internal-exception(C01)")
         elif a[2] != f[2]:
-            kind = diff_kind(a[2], f[2])
-            if kind.startswith("fields=") and set(kind[7:].split("+")) <= {"line", "column", "module_path", "description"}:
-                kind = "location"          # same names, reported at another place (stub vs module)
-            elif kind not in ("order",) and not kind.startswith("fields="):
-                kind = "different-results"
-            if a[0] == "get_references":
-                kind = "unstable"      # one family: get_references results depend on what was inferred before
-            devs.append(("answer-depends-on-query-history:%s:%s" % (a[0], kind), "%s at %s in %s: after history %s -> %s ; fresh Script -> %s" % (
+            devs.append((history_sig(a[0], a[2], f[2]), "%s at %s in %s: after history %s -> %s ; fresh Script -> %s" % (
                 a[0], a[1], case["src"]["origin"], [(b[0], b[1]) for b in between], str(a[2])[:200], str(f[2])[:200])))
     ctx.sample({"origin": case["src"]["origin"], "pool": [(f[0], f[1]) for f in first], "between": [(b[0], b[1], "raised" if b[2] and b[2][0] == "exc" else "ok") for b in between]}, limit=3)
     for sig, detail in devs:
@@ -255,6 +248,10 @@ def history_sig(method, with_history, fresh):
     kind = diff_kind(with_history, fresh)
     if kind.startswith("fields=") and set(kind[7:].split("+")) <= {"line", "column", "module_path", "description"}:
         kind = "location"          # same names, reported at another place (stub vs module)
+    elif method == "complete" and kind.startswith("fields=") and "name" not in kind[7:].split("+") and "complete" not in kind[7:].split("+"):
+        # the same names with the same completions; WHICH of several same-named definitions (an attribute defined by
+        # two classes of a union receiver) stands behind one of them differs - pinned root cause, see the cross-process part
+        kind = "same-names-other-definition"
     elif kind not in ("order",) and not kind.startswith("fields="):
         kind = "different-results"
     if method == "get_references":
